@@ -125,6 +125,18 @@ type Cases struct {
 	Footer string // commands evaluated after `cases` is defined
 	terms  []string
 	human  []string
+	defs   [][2]string // optional (name, term) definition a case refers to; emitted once per shard
+}
+
+// AddWithDef adds a case whose term refers to the Coq constant defName (of
+// body defTerm); the definition is written once in every shard that uses it.
+func (c *Cases) AddWithDef(defName, defTerm, term, human string) {
+	for len(c.defs) < len(c.terms) {
+		c.defs = append(c.defs, [2]string{})
+	}
+	c.defs = append(c.defs, [2]string{defName, defTerm})
+	c.terms = append(c.terms, term)
+	c.human = append(c.human, human)
 }
 
 func (c *Cases) Add(term, human string) {
@@ -160,6 +172,13 @@ func (c *Cases) Write(dir string, shards int) error {
 		lo, hi := k*per, min((k+1)*per, n)
 		var sb strings.Builder
 		sb.WriteString(c.Header)
+		done := map[string]bool{}
+		for i := lo; i < hi && i < len(c.defs); i++ {
+			if d := c.defs[i]; d[0] != "" && !done[d[0]] {
+				done[d[0]] = true
+				sb.WriteString("\nDefinition " + d[0] + " := " + d[1] + ".")
+			}
+		}
 		sb.WriteString("\nDefinition cases : list (" + c.Type + ") := [\n")
 		for i := lo; i < hi; i++ {
 			if i > lo {
